@@ -66,6 +66,10 @@ def monitor(case, impl_line):
                     if v == 0: expect = ("R", sid, 1)
                     elif iws + s["wu"] - s["sent"] + v > IMAX: expect = ("R", sid, 3)
                     else: s["wu"] += v
+            elif f[0] == "R":
+                sid = int(f[1])
+                if sid == 0 or sid > max(list(st) + [0]): expect = ("A", 1)
+                elif sid in st: st[sid]["reset"] = True
             elif f[0] == "D":
                 sid = int(f[1]); ln = int(f[3]) + ((1 + int(f[4])) if len(f) > 4 and int(f[2], 16) & 8 else 0)
                 if sid in up_st and not st[sid]["reset"]:
@@ -172,6 +176,9 @@ def gen_cases(ctx):
                 acts.append("W:0:%d" % rng.choice(incs))
             elif r < 0.8 and sids:
                 acts.append("W:%d:%d" % (rng.choice(sids + [sid + 2] * (rng.random() < 0.03)), rng.choice(incs)))
+            elif r < 0.86 and sids and rng.random() < 0.6:
+                # the client cancels a stream (open, finished, or - rarely - one it never opened)
+                acts.append("R:%d:%d" % (rng.choice(sids + [sid + 2] * (rng.random() < 0.05) + [0] * (rng.random() < 0.03)), rng.choice([8, 8, 0, 5])))
             elif r < 0.95:
                 ps = ["4=%d" % rng.choice(iwss) for _ in range(rng.choice([1, 1, 1, 2, 3]))]
                 if rng.random() < 0.15: ps.insert(rng.randrange(len(ps) + 1), "5=%d" % rng.choice([16384, 16385, 20000, 16383, 65536]))
